@@ -234,6 +234,9 @@ struct Gen {
     nexports: usize,
     exp_deleted: Vec<bool>,
     exp_added: Vec<bool>,
+    exp_name: Vec<String>,
+    /// the name of this deleted export has been given to a later one
+    exp_reused: Vec<bool>,
     special_funcs: Vec<usize>,
     plain_funcs: Vec<usize>,
 }
@@ -303,6 +306,8 @@ fn gen_history(rng: &mut Rng, b: &Base, special: u8) -> (Vec<Act>, Vec<Handle>) 
         nexports: b.nexp,
         exp_deleted: vec![false; b.nexp],
         exp_added: vec![false; b.nexp],
+        exp_name: (0..b.nexp).map(|k| format!("b{k}")).collect(),
+        exp_reused: vec![false; b.nexp],
         special_funcs: vec![],
         plain_funcs: vec![],
     };
@@ -395,7 +400,18 @@ fn gen_history(rng: &mut Rng, b: &Base, special: u8) -> (Vec<Act>, Vec<Handle>) 
                     g.handles[h].refs += 1;
                     g.next_site += 1;
                     let tag = g.tagspec(rng, true);
-                    let name = format!("x{}", g.nexports);
+                    // one added export in three takes the name of an export deleted earlier (a parsed one: `b<k>`, or an added one):
+                    // redirecting an export is delete + add under the same name, and the record must be the new one's
+                    let gone: Vec<usize> = (0..g.nexports).filter(|i| g.exp_deleted[*i] && !g.exp_reused[*i]).collect();
+                    let name = if !gone.is_empty() && rng.chance(1, 3) {
+                        let i = *rng.pick(&gone);
+                        g.exp_reused[i] = true;
+                        g.exp_name[i].clone()
+                    } else {
+                        format!("x{}", g.nexports)
+                    };
+                    g.exp_name.push(name.clone());
+                    g.exp_reused.push(false);
                     g.nexports += 1;
                     g.exp_deleted.push(false);
                     g.exp_added.push(true);
@@ -958,11 +974,27 @@ pub fn run(ctx: &mut Ctx) {
                 let special_out: Vec<u32> = vec![];
                 let _ = special_out;
                 let mut groups: BTreeMap<&str, Vec<String>> = BTreeMap::new();
+                // the model identifies an export by its position in the export vector (`x<pos>`); an added export may carry the name
+                // of a deleted one, so the name in the record is translated to the position of the latest export added under it
+                let mut added_names: Vec<String> = vec![];
+                for a in &acts {
+                    if let Act::ExpF { name, .. } = a {
+                        added_names.push(name.clone());
+                    }
+                }
                 for r in &recs {
                     if r.kind == "probe" && (special == 2 || (special == 1 && r.tag.is_empty())) {
                         continue;
                     }
-                    groups.entry(r.kind).or_default().push(format!("{}~{}", r.text, hex(&r.tag)));
+                    let text = if r.kind == "export" {
+                        match added_names.iter().rposition(|n| *n == r.key) {
+                            Some(k) => format!("x{}{}", base.nexp + k, &r.text[r.key.len()..]),
+                            None => r.text.clone(),
+                        }
+                    } else {
+                        r.text.clone()
+                    };
+                    groups.entry(r.kind).or_default().push(format!("{}~{}", text, hex(&r.tag)));
                 }
                 let fx: Vec<String> = groups.iter().map(|(k, v)| format!("{k}[{}]", v.join(";"))).collect();
                 ctx.impl_line(&format!("sidefx {case} fx={}", if fx.is_empty() { "-".to_string() } else { fx.join("|") }));
